@@ -205,6 +205,18 @@ func (c *certStatusChecker) executeInitialStatusAction(ctx context.Context,
 			return fmt.Errorf("recovery: error updating local storage with agglayer certificate: %w", err)
 		}
 	case InitialStatusActionInsertNewCert:
+		if localCert != nil && action.cert != nil && localCert.Height == action.cert.Height {
+			// the agglayer certificate replaces the local one at the same height, so it's a retry of it
+			cert, err := newCertificateInfoFromAgglayerCertHeader(action.cert)
+			if err != nil {
+				return fmt.Errorf("recovery: error creating certificate from AggLayer header: %w", err)
+			}
+			cert.Header.RetryCount = localCert.RetryCount + 1
+			if err := c.storage.SaveLastSentCertificate(ctx, *cert); err != nil {
+				return fmt.Errorf("recovery: error new local storage with agglayer certificate: %w", err)
+			}
+			return nil
+		}
 		if _, err := c.updateLocalStorageWithAggLayerCert(ctx, action.cert); err != nil {
 			return fmt.Errorf("recovery: error new local storage with agglayer certificate: %w", err)
 		}
